@@ -354,11 +354,13 @@ def dense_poly(yx, nst, ncols):
 
 def run(ctx):
     gen(ctx)
-    ok = ctx.lean_build(["HitenModel.Props.C02"])
+    ok = ctx.lean_build(["HitenModel.Props.C02", "HitenModel.Props.C02Ctl"])
     if ok:
-        ctx.lean_audit(["HitenModel.Props.C02"], ["HitenModel.Props.C02", "HitenModel.Gen.C02", "HitenModel.Core.Dy", "HitenModel.Lemmas.Trees"])
+        ctx.lean_audit(["HitenModel.Props.C02", "HitenModel.Props.C02Ctl"],
+                       ["HitenModel.Props.C02", "HitenModel.Props.C02Ctl", "HitenModel.Gen.C02", "HitenModel.Core.Dy", "HitenModel.Core.C02Ctl", "HitenModel.Lemmas.Trees"])
         if ctx.thorough():
-            ctx.leanchecker(["HitenModel.Props.C02"])
+            ctx.leanchecker(["HitenModel.Props.C02", "HitenModel.Props.C02Ctl"])
+    controller_corr(ctx)
     validate_traces(ctx)
     numerics(ctx)
     if not ctx.violations:
@@ -565,3 +567,80 @@ def ham_tolerance(ctx):
                               "adaptive order %d on a polynomial Hamiltonian system: error %.3g = %.0f x (atol + rtol*|y|) with rtol=%g, atol=%g" % (p, err, ratio, rtol, atol),
                               {"order": p, "rtol": rtol, "atol": atol, "hamiltonian": {str(k): v for k, v in hd.items()}, "y0": y0.tolist(), "t_end": 5.0, "error": err})
                 return
+
+
+def controller_corr(ctx):
+    """exact correspondence of the controller helpers of integrators/utils.py with the Lean model (Core/C02Ctl.lean).
+    Powers are exact on the chosen grid: order in {1,3,7} (beta = 1/2, 1/4, 1/8), err_norm = 2^(8k), err_prev in {-1, 1}."""
+    from fractions import Fraction
+    from hiten.algorithms.integrators import utils as U
+    rng = ctx.rng
+
+    def fr(x):
+        q = Fraction(float(x))
+        return str(q.numerator) if q.denominator == 1 else "%d/%d" % (q.numerator, q.denominator)
+
+    lines, expect = ["ctl %s %s %s" % (fr(U._SAFETY), fr(U._MIN_FACTOR), fr(U._MAX_FACTOR))], []
+    # accept / reject factors
+    for order in (1.0, 3.0, 7.0):
+        for k in (-3, -2, -1, 0, 1, 2, 3):
+            err = 2.0 ** (8 * k)
+            for prev in (-1.0, 1.0):
+                beta = 1.0 / (order + 1.0)
+                u = err ** (-beta)                        # exact: 2^(-8k/(order+1))
+                lines.append("accept 0 %s" % fr(u))
+                expect.append(fr(U._pi_accept_factor(err, prev, order)))
+            if order in (1.0, 3.0):                       # reject uses exponent 1/order: exact for order 1 (and 2,4,8)
+                pass
+        for prev in (-1.0, 1.0, 0.5):
+            lines.append("accept 1 1")
+            expect.append(fr(U._pi_accept_factor(0.0, prev, order)))
+        lines.append("accept 0 nan")
+        expect.append(fr(U._pi_accept_factor(float("nan"), -1.0, order)))
+    for order in (1.0, 2.0, 4.0, 8.0):
+        for k in (-2, -1, 0, 1, 2, 3):
+            err = 2.0 ** (8 * k)
+            u = err ** (-(1.0 / order))
+            lines.append("reject 0 %s" % fr(u))
+            expect.append(fr(U._pi_reject_factor(err, order)))
+        for e in (0.0, -1.0):
+            lines.append("reject 1 1")
+            expect.append(fr(U._pi_reject_factor(e, order)))
+        lines.append("reject 0 nan")
+        expect.append(fr(U._pi_reject_factor(float("nan"), order)))
+    # clamp / adjust / initial step on random dyadic data (incl. min > max and negative spans)
+    dy = lambda: rng.choice([-1, 1]) * rng.randint(0, 64) / 2.0 ** rng.randint(0, 8)
+    for _ in range(400 if ctx.thorough() else 120):
+        h, mx, mn = dy(), abs(dy()), abs(dy())
+        lines.append("clamp %s %s %s" % (fr(h), fr(mx), fr(mn)))
+        expect.append(fr(U._clamp_step(h, mx, mn)))
+        t, te = dy(), dy()
+        lines.append("adjust %s %s %s" % (fr(t), fr(h), fr(te)))
+        expect.append(fr(U._adjust_step_to_endpoint(t, h, te)))
+        d0, d1 = abs(dy()), abs(dy())
+        small = d0 < 1.0e-5 or d1 < 1.0e-5
+        q = 0.0 if small else 0.01 * d0 / d1
+        lines.append("init %d %s %s %s %s" % (1 if small else 0, fr(1.0e-6), fr(q), fr(mn), fr(mx)))
+        expect.append(fr(U._select_initial_step(d0, d1, mn, mx)))
+    out = [l.strip() for l in ctx.lean_run("Drivers/C02Ctl.lean", "\n".join(lines) + "\n") if l.strip()]
+    bad = [(l, e, o) for l, e, o in zip(lines[1:], expect, out) if e != o]
+    ctx.extra["controller_corr_cases"] = len(expect)
+    for _ in expect:
+        ctx.case(None, nontrivial=False, kind="controller-corr")
+    if len(out) != len(expect) or bad:
+        ctx.broken.append(("correspondence:step-controller", "controller helpers and model differ: %r" % (bad[:3] or [len(out), len(expect)],)))
+        ctx.obligations["correspondence:step-controller"] = False
+        # failing-input search: the clauses themselves on the real functions
+        for l, e, o in bad[:50]:
+            w = l.split()
+            if w[0] in ("accept", "reject"):
+                f = float(Fraction(e))
+                if not (U._MIN_FACTOR <= f <= U._MAX_FACTOR):
+                    ctx.violation("controller-factor-out-of-range", "step factor %r outside [MIN_FACTOR, MAX_FACTOR]" % f, {"call": l, "factor": f})
+            if w[0] == "adjust":
+                t, h, te = [float(Fraction(x)) for x in w[1:]]
+                r = float(Fraction(e))
+                if t <= te and t + r > te:
+                    ctx.violation("controller-overshoot", "adjusted step passes the end point", {"t": t, "h": h, "t_end": te, "adjusted": r})
+    else:
+        ctx.obligations["correspondence:step-controller"] = True
